@@ -344,9 +344,9 @@ func (c c07) ParentPhase(env *kernel.Env) kernel.PhaseResult {
 	if _, err := os.Stat(fresh); err != nil {
 		kernel.Harnessf("fresh-process binary missing: %v", err)
 	}
-	perProc, nprog := 2, 5
+	perProc, nprog := 2, len(fixedPrograms(env))+2
 	if env.Tier == "thorough" {
-		perProc, nprog = 20, 12
+		perProc, nprog = 20, len(fixedPrograms(env))+8
 	}
 	progs := fixedPrograms(env)
 	for i := 0; len(progs) < nprog; i++ {
@@ -460,6 +460,81 @@ func (c c07) ParentPhase(env *kernel.Env) kernel.PhaseResult {
 	res.Coverage["fresh_processes"] = procs
 	res.Coverage["fresh_process_programs"] = len(progs)
 	res.Coverage["fresh_max_distinct_texts_per_target"] = distinctTexts
+
+	// reload tier: the same program loaded again and again in one process
+	reloads := 30
+	if env.Tier == "thorough" {
+		reloads = 300
+	}
+	type rres struct {
+		ref progRef
+		out map[string][]string
+		err string
+	}
+	rresults := make([]rres, len(progs))
+	rdone := make(chan int)
+	for i, ref := range progs {
+		go func(i int, ref progRef) {
+			sem <- struct{}{}
+			defer func() { <-sem; rdone <- i }()
+			dir := progDir(env, ref)
+			if ref.Kind == "repo" {
+				dir = pristine
+			}
+			args := append([]string{dir}, progFiles(env, ref)...)
+			args = append(args, "-reload", fmt.Sprint(reloads))
+			cmd := exec.Command(fresh, args...)
+			cmd.Env = append(os.Environ(), "GOMAXPROCS=16")
+			b, err := cmd.Output()
+			r := rres{ref: ref}
+			if err != nil {
+				r.err = err.Error()
+			} else if jerr := json.Unmarshal(b, &r.out); jerr != nil {
+				r.err = jerr.Error()
+			}
+			rresults[i] = r
+		}(i, ref)
+	}
+	for range progs {
+		<-rdone
+	}
+	var reloadLoads int64
+	for _, r := range rresults {
+		if r.err != "" {
+			kernel.Harnessf("reload run for %s failed: %s", r.ref.Name, r.err)
+		}
+		reloadLoads += int64(reloads)
+		var names []string
+		for n := range r.out {
+			names = append(names, n)
+		}
+		sort.Strings(names)
+		for _, name := range names {
+			hs := r.out[name]
+			if len(hs) <= 1 {
+				continue
+			}
+			v := kernel.Violation{Property: "C07", Clause: "repeated_load_outputs_differ", Signature: r.ref.Kind + "/" + r.ref.Name + "/" + targetOf(name),
+				Detail: fmt.Sprintf("program %s/%s output %s: %d distinct texts over %d loads of the same sources in one process (sha256 prefixes %v)", r.ref.Kind, r.ref.Name, name, len(hs), reloads, hs)}
+			dir := progDir(env, r.ref)
+			if r.ref.Kind == "repo" {
+				dir = "<pristine copy of the tree>"
+			}
+			rep := map[string]any{"violation": v, "program": r.ref, "files": progFiles(env, r.ref),
+				"command": fmt.Sprintf("GOMAXPROCS=16 c07fresh %s %s -reload %d", dir, strings.Join(progFiles(env, r.ref), " "), reloads),
+				"note":    "found by the uncontrolled reload tier (go/packages parses files in goroutines the simulator does not schedule): replay is probabilistic"}
+			path := filepath.Join(env.VerifDir, "evidence", "replays", fmt.Sprintf("C07-reload-%s-%s.json", r.ref.Name, strings.ReplaceAll(targetOf(name), "/", "_")))
+			if ev := evidenceDir(); ev != "" {
+				path = filepath.Join(ev, "replays", filepath.Base(path))
+			}
+			os.MkdirAll(filepath.Dir(path), 0o755)
+			b, _ := json.MarshalIndent(rep, "", " ")
+			os.WriteFile(path, b, 0o644)
+			res.Violations = append(res.Violations, kernel.Found{V: v, File: path, Case: kernel.Case{Index: 1<<30 + 2}})
+			break
+		}
+	}
+	res.Coverage["reload_tier_loads"] = reloadLoads
 
 	// the real CLI on a generated config
 	cliRuns, cliV := runCLI(env, scr, progs)
